@@ -62,21 +62,27 @@ def run_impl(case):
         for q in case.get('pre', []):
             # earlier questions to the SAME context object; answers discarded (the model is stateless)
             try:
-                _ask(K, q[0], q[1], q[2])
+                r0 = _ask(K, q[0], q[1], q[2], raw=True)
+                # aliasing probe: whatever the API handed out is the caller's to change; a later
+                # answer must not depend on it (fresh lists on the unchanged tree)
+                if isinstance(r0, list):
+                    r0.clear()
+                    r0.extend([0] * 3)
             except Exception:
                 pass
         op, arg, base = case['op'], case['arg'], case['base']
         return _ask(K, op, arg, base)
 
-    def _ask(K, op, arg, base):
+    def _ask(K, op, arg, base, raw=False):
+        cv = (lambda x: x) if raw else canon
         if op == 0:
-            return canon(K.extension_i(list(arg), None if base is None else list(base)))
+            return cv(K.extension_i(list(arg), None if base is None else list(base)))
         if op == 1:
-            return canon(K.intention_i(list(arg), None if base is None else list(base)))
+            return cv(K.intention_i(list(arg), None if base is None else list(base)))
         if op == 2:
-            return canon(K.extension_monotone_i(list(arg), None if base is None else list(base)))
+            return cv(K.extension_monotone_i(list(arg), None if base is None else list(base)))
         if op == 3:
-            return canon(K.intention_monotone_i(list(arg), None if base is None else list(base)))
+            return cv(K.intention_monotone_i(list(arg), None if base is None else list(base)))
         if op in (4, 6):
             res = K.extension([aname(k) for k in arg], None if base is None else [oname(k) for k in base],
                               is_monotone=(op == 6))
@@ -165,23 +171,37 @@ def random_case(rng, max_dim):
             base_names.insert(rng.randint(0, len(base_names)), UNKNOWN + rng.randrange(5))
         arg, base = arg_names, base_names
     c = _mk(b, t, op, arg, base, onames, anames, kind + ('+dup' if dup else ''))
-    if rng.random() < 0.3:
+    if rng.random() < 0.45:
         # query history on one object: same operator family, the same or a sub-/super-set argument,
         # other base sets (a cache keyed too coarsely answers the later question from the earlier one)
         pre = []
         for _ in range(rng.randint(1, 3)):
             a2 = list(arg)
             r = rng.random()
-            if r < 0.3 and a2:
+            if r < 0.2 and a2:
                 a2 = [rng.choice(a2)]
-            elif r < 0.5:
+            elif r < 0.35:
                 a2 = a2[:rng.randint(0, len(a2))]
+            elif r < 0.8:
+                # an unrelated argument (an in-place write into the table shows only on OTHER columns/rows)
+                n_a = (h if on_rows else w)
+                pool_a = (onames if on_rows else anames) if op >= 4 else list(range(n_a))
+                a2 = rng.sample(pool_a, rng.randint(0, len(pool_a)))
             n_b = (w if on_rows else h)
             pool = (anames if on_rows else onames) if op >= 4 else list(range(n_b))
-            b2 = None if rng.random() < 0.3 else rng.sample(pool, rng.randint(0, len(pool)))
+            b2 = None if rng.random() < 0.5 else rng.sample(pool, rng.randint(0, len(pool)))
             if op in (5, 7):
                 b2 = None
             pre.append([op, a2, b2])
+        if op < 4 and rng.random() < 0.35:
+            # a small earlier question without a base set whose FIRST element also occurs in the judged
+            # question (an accumulator written back into the table shows on exactly that row/column)
+            n_a = (h if on_rows else w)
+            if n_a >= 2 and c['arg']:
+                first = c['arg'][0]
+                others = [x for x in range(n_a) if x != first]
+                k = rng.randint(1, max(1, min(len(others), max(1, n_a // 2 - 1))))
+                pre.append([op, [first] + rng.sample(others, k), None])
         c['pre'] = pre
         c['kind'] += '+pre'
     if op >= 4 and rng.random() < 0.2:
